@@ -179,6 +179,8 @@ def vary(rng, doc):
                     v[n] = go(v[n], depth + 1)
             elif k in ("minimum", "maximum", "exclusiveMinimum", "exclusiveMaximum", "minItems", "minLength", "maxLength", "multipleOf") and rng.random() < 0.15:
                 del s[k]
+            elif k in ("minimum", "maximum", "exclusiveMinimum", "exclusiveMaximum") and rng.random() < 0.25:
+                s[k] = rng.choice([0, 0, 1, -1])
         return s
     return go(d, 0)
 
@@ -475,9 +477,11 @@ def run(pid, tier):
     try:
         lines, meta = [], []
         suspects = []
+        source = {}
         for d in docs:
             if isinstance(d, bool) or not J.integral(d):
                 continue
+            source[id(d)] = d
             try:
                 nf = normalize(copy.deepcopy(d))
             except Exception:  # noqa
@@ -503,7 +507,7 @@ def run(pid, tier):
                 continue
             if impl != m:
                 ck.cov["disagreements_checked"] += 1
-                suspects.append(d)
+                suspects.append(source.get(key, d))       # the document as written, not its normal form
                 if ck.cov["disagreements_checked"] <= 3:
                     ck.violation("correspondence-J", "model (coq/JsonGen.v%s) and json_schema/parse.py disagree" % ("" if normalized else " + Normalize.v"),
                                  {"stream": "J", "schema": d, "already_normalized": normalized, "impl": impl[:600], "model": m[:600],
